@@ -448,11 +448,35 @@ class BinaryCodec(object):
     def neg_v(self, x, y):
         return x ^ y
 
+    def add(self, P, Q):
+        """affine group law (None = neutral element)"""
+        F = self.F
+        if P is None:
+            return Q
+        if Q is None:
+            return P
+        x1, y1 = P
+        x2, y2 = Q
+        if x1 == x2:
+            if y1 != y2 or x1 == 0:
+                return None                       # Q = -P, or doubling the point of order two
+            lam = x1 ^ F.mul(y1, F.inv(x1))
+            x3 = F.sqr(lam) ^ lam ^ self.a
+            return (x3, F.sqr(x1) ^ F.mul(lam ^ 1, x3))
+        lam = F.mul(y1 ^ y2, F.inv(x1 ^ x2))
+        x3 = F.sqr(lam) ^ lam ^ x1 ^ x2 ^ self.a
+        return (x3, F.mul(lam, x1 ^ x3) ^ x3 ^ y1)
+
+    def sqrt(self, c):
+        for _ in range(self.F.m - 1):
+            c = self.F.sqr(c)
+        return c
+
     def solve(self, x, bit):
         F = self.F
         if x == 0:
-            # the point of order two (0, sqrt(b)); y/x is undefined, the encoder's bit cannot be reproduced
-            return None
+            # the point of order two (0, sqrt(b)); X9.62: the compression bit of this point is 0
+            return self.sqrt(self.b) if bit == 0 else None
         x2 = F.sqr(x)
         c = F.mul(F.mul(x2, x) ^ F.mul(self.a, x2) ^ self.b, F.inv(x2))
         z = F.solve(c)
@@ -484,6 +508,16 @@ class EdwardsCodec(object):
     def neg_v(self, u, v):
         return -v % self.F.p
 
+    def add(self, P, Q):
+        """complete addition law on wire pairs (u, v) = (y, x); None = neutral element (0, 1)"""
+        p = self.F.p
+        y1, x1 = P if P is not None else (1, 0)
+        y2, x2 = Q if Q is not None else (1, 0)
+        t = self.d * x1 * x2 * y1 * y2 % p
+        x3 = (x1 * y2 + y1 * x2) * pow(1 + t, -1, p) % p
+        y3 = (y1 * y2 - self.a * x1 * x2) * pow(1 - t, -1, p) % p
+        return None if (x3 == 0 and y3 == 1) else (y3, x3)
+
     def solve(self, u, bit):
         p = self.F.p
         y = u
@@ -500,6 +534,18 @@ class EdwardsCodec(object):
 
     def is_neutral(self, u, v):
         return v % self.F.p == 0 and u % self.F.p == 1
+
+
+def scalar_mul(C, k, P):
+    """double-and-add with a codec curve's add()"""
+    R = None
+    Q = P
+    while k:
+        if k & 1:
+            R = C.add(R, Q)
+        Q = C.add(Q, Q)
+        k >>= 1
+    return R
 
 
 class PointCodec(object):
@@ -528,29 +574,42 @@ class PointCodec(object):
 
     def decode(self, bs):
         """-> ('inf',) | ('pt', u, v) | None"""
+        return self.decode_why(bs)[0]
+
+    def decode_why(self, bs):
+        """-> (decoded or None, reason): reason is 'ok' or why the string is not a canonical encoding:
+        len, tag, range (coordinate not a reduced field element), no-point (no point with these coordinates),
+        noncanonical-sign (the only point above u carries the other compression bit, i.e. second coordinate 0),
+        neutral-as-point (coordinates of the neutral element, whose only encoding is the single byte 0)"""
         n = len(bs)
         F, C = self.F, self.C
         if n == 1:
-            return ("inf",) if bs[0] == 0 else None
+            return (("inf",), "ok") if bs[0] == 0 else (None, "tag")
         if n == self.len_pack:
             if bs[0] not in (2, 3):
-                return None
+                return None, "tag"
             u = F.dec(bs[1:])
             if u is None:
-                return None
+                return None, "range"
             v = C.solve(u, bs[0] & 1)
-            if v is None or C.is_neutral(u, v):
-                return None
-            return ("pt", u, v)
+            if v is None:
+                return None, ("noncanonical-sign" if C.solve(u, (bs[0] & 1) ^ 1) is not None else "no-point")
+            if C.is_neutral(u, v):
+                return None, "neutral-as-point"
+            return ("pt", u, v), "ok"
         if n == self.len_full:
             if bs[0] != 4:
-                return None
+                return None, "tag"
             u = F.dec(bs[1:1 + self.n])
             v = F.dec(bs[1 + self.n:])
-            if u is None or v is None or not C.on_curve(u, v) or C.is_neutral(u, v):
-                return None
-            return ("pt", u, v)
-        return None
+            if u is None or v is None:
+                return None, "range"
+            if not C.on_curve(u, v):
+                return None, "no-point"
+            if C.is_neutral(u, v):
+                return None, "neutral-as-point"
+            return ("pt", u, v), "ok"
+        return None, "len"
 
 
 # --------------------------------------------------------------------------------------- self tests
@@ -594,6 +653,19 @@ def selftest():
     gy = 0x3676854FE24141CB98FE6D4B20D02B4516FF702350EDDB0826779C813F0DF45BE8112F4
     B = BinaryCodec(G, 1, b283)
     assert B.on_curve(gx, gy) and B.solve(gx, B.bit(gx, gy)) == gy
+    n283 = 0x3FFFFFFFFFFFFFFFFFFFFFFFFFFFFFFFFFFEF90399660FC938A90165B042A7CEFADB307
+    P5 = scalar_mul(B, 5, (gx, gy))
+    assert B.on_curve(*P5) and B.add(scalar_mul(B, 2, (gx, gy)), scalar_mul(B, 3, (gx, gy))) == P5
+    assert scalar_mul(B, n283, (gx, gy)) is None and B.on_curve(0, B.sqrt(b283))
+    # Ed25519 (RFC 8032): base point, group law, order
+    p = 2 ** 255 - 19
+    d = -121665 * pow(121666, -1, p) % p
+    Ed = EdwardsCodec(PrimeCoord(p, 32), p - 1, d, lambda x: x & 1)
+    by = 4 * pow(5, -1, p) % p
+    bx = Ed.solve(by, 0)
+    assert bx == 15112221349535400772501151409588531511454012693041857206046113283949847762202
+    assert Ed.on_curve(by, bx) and scalar_mul(Ed, 2 ** 252 + 27742317777372353535851937790883648493, (by, bx)) is None
+    assert Ed.on_curve(*scalar_mul(Ed, 12345, (by, bx)))
     # cubic roots
     p = 2 ** 255 - 19
     for r in ([5, 7, p - 12], [11]):
